@@ -355,6 +355,9 @@ PROPS["C11"]["tests"].append(dict(name="TestVF_C11Perturbed", rapid=False, env=d
                                   quick=dict(shards=32, timeout=1800, env=dict(VERIF_C11P_STRIDE=12)),
                                   thorough=dict(shards=32, timeout=20000, env=dict(VERIF_C11P_STRIDE=1))))
 
+PROPS["C12"]["tests"].append(dict(name="TestVF_C12Hostile", env=dict(VERIF_CASE_LIMIT=300),
+                                  quick=dict(checks=960, shards=16, timeout=900, vmem_kb=6291456), thorough=dict(checks=40000, shards=16, timeout=10000, vmem_kb=6291456)))
+
 # native fuzz targets (thorough tier only; Go's fuzzer cannot be pinned to a seed, a saved crasher is the reproducible unit)
 for _pid in ["C03", "C04", "C06", "C15", "C16", "C20"]:
     PROPS[_pid]["tests"].append(dict(name="FuzzVF_%s" % _pid, rapid=False, thorough=dict(shards=1, timeout=400, fuzz="90s", par=16)))
